@@ -336,6 +336,7 @@ def check_measurements(ck, repo):
         outs = analyse(repo, f, cfg)
         ok = bool(outs)
         found = ""
+        okxs = []
         for o in outs:
             oko = False
             if o.kind == "return" and isinstance(o.value, ObjV):
@@ -347,9 +348,25 @@ def check_measurements(ck, repo):
                     oko = isinstance(p, Num) and p.r.single_atom() is not None and \
                         p.r.single_atom().name == "curve.permeances[#b0][%d].value" % i and \
                         isinstance(t, Num) and t.r == Rat.sym("curve.feed_temperature")
+                    # ... paired with the mass fraction of the SAME point j, for every point of the curve
+                    x = d.elem.fields.get("x")
+                    pj = Rat.sym("curve.feed_compositions[#b0].p")
+                    M1, M2 = (Rat.sym("curve.mixture.%s_component.molecular_weight" % c) for c in ("first", "second"))
+                    is_weight = [dd for cn, dd in o.trace if isinstance(cn, tuple) and cn[0] == "streq" and
+                                 cn[1] == "curve.feed_compositions[#b0].type" and cn[2] == "weight"]
+                    want = pj if (is_weight and is_weight[0]) else (pj * M1 / (pj * M1 + (1 - pj) * M2) if is_weight else None)
+                    okx = isinstance(x, Num) and want is not None and x.r == want
+                    okn = d.lo == Rat.const(0) and d.hi in (Rat.sym("len(curve.feed_compositions)", ("nonneg", "int")),
+                                                            Rat.sym("len(curve.permeances)", ("nonneg", "int")))
+                    found += " x=%r range=[%s, %s)" % (x, d.lo, d.hi)
+                    okxs.append(okx and okn)
             ok = ok and oko
         ck.ob("N1", f.qualname, "measurement j of component %d carries permeances[j][%d].value at the curve's temperature" % (i + 1, i), f.loc(), ok,
               found=found[:300])
+        ck.ob("N1", f.qualname, "measurement j of component %d pairs that permeance with the feed mass fraction of the same point j, for every "
+              "point of the curve" % (i + 1), f.loc(), bool(okxs) and all(okxs) and len(okxs) == len(outs),
+              "a composition list that is filtered, sorted or shifted on one side only pairs permeances with other points' compositions",
+              found=found[:400])
         g = repo.find_function("Measurements.from_diffusion_curves_%s" % comp)
         ck.analysed_function(g)
         # every reference (call or function value handed to a helper) to a per-curve extractor inside the set-level constructor
